@@ -197,6 +197,8 @@ def run(ctx):
         return
     rs = ctx.rule("R2", "oracles agree with the structural definitions (per operator skeleton)")
     shapes = proc.term_shapes() + proc.quantified_shapes() + proc.boolean_shapes(depth2=False)
+    if ctx.tier == "thorough":
+        shapes = proc.in_contexts(shapes)
     jobs = [(o, sh) for sh in shapes for o in ORACLES]
     outs = parallel_map(_job, jobs)
     label = {"free": "FreeVarsOracle", "atoms": "AtomsOracle", "qf": "QuantifierOracle", "types": "TypesOracle"}
